@@ -10,15 +10,38 @@
                  grant [n-len, n)         (since the fix; before it: [pl, pl+len), finding F11)
 
    Reserve = [0, R).  Mmap(p) models the primary path: a fresh region disjoint from everything. *)
-EXTENDS Integers, Sequences, FiniteSets, TLC, Json
+EXTENDS Integers, Sequences, FiniteSets
 
-CONSTANTS P,          \* requesting processes
-          Sizes,      \* request sizes
-          K,          \* requests per process
-          R,          \* size of the reserve
-          MmapWorks   \* BOOLEAN: may the primary path succeed
+CONSTANTS
+    \* @type: Set(Int);
+    P,          \* requesting processes
+    \* @type: Set(Int);
+    Sizes,      \* request sizes
+    \* @type: Int;
+    K,          \* requests per process
+    \* @type: Int;
+    R,          \* size of the reserve
+    \* @type: Bool;
+    MmapWorks   \* BOOLEAN: may the primary path succeed
 
-VARIABLES off, pc, pl, want, done, granted, fresh, hist
+\* (the @type comments are Apalache annotations: StubAllocInd.tla proves the invariants inductively, for any K and R)
+VARIABLES
+    \* @type: Int;
+    off,
+    \* @type: Int -> Str;
+    pc,
+    \* @type: Int -> Int;
+    pl,
+    \* @type: Int -> Int;
+    want,
+    \* @type: Int -> Int;
+    done,
+    \* @type: Set({p: Int, k: Int, lo: Int, hi: Int, len: Int, src: Str});
+    granted,
+    \* @type: Int;
+    fresh,
+    \* @type: Seq({p: Int, act: Str, len: Int, lo: Int, err: Bool});
+    hist
 vars == <<off, pc, pl, want, done, granted, fresh, hist>>
 
 Init == /\ off = 0
@@ -74,6 +97,5 @@ Sized == \A a \in granted : a.hi - a.lo >= a.len
 NoOverrun == LET H == {a \in granted : a.src = "holder"} IN
              \A a \in H : a.hi <= R
 
-Emit == AllDone => PrintT(ToJson(hist))
 View == <<off, pc, pl, want, done, granted, fresh>>
 =============================================================================
